@@ -25,7 +25,33 @@ pub struct CHist {
     pub ops: Vec<COp>,
 }
 
+/// the committed witness of known finding KF-C20-1 (independent of the generators)
+pub fn directed_kf1() -> CHist {
+    CHist {
+        ops: vec![
+            COp::Add("k".into()),
+            COp::Add("alpha".into()),
+            COp::Union(1, 0),
+            COp::Add("(lam $p501 (lam $p502 (idx $p2 (var $p502))))".into()),
+            COp::Add("gamma".into()),
+            COp::Add("(app beta omega)".into()),
+            COp::Match("?a".into()),
+            COp::Union(0, 2),
+            COp::Union(3, 0),
+            COp::Extract(0),
+            COp::Dump,
+        ],
+    }
+}
+
+thread_local! {
+    pub static DIRECTED_KF1: std::cell::Cell<bool> = std::cell::Cell::new(false);
+}
+
 pub fn gen_chist(rng: &mut Rng, with_dump: bool) -> CHist {
+    if DIRECTED_KF1.with(|d| d.get()) {
+        return directed_kf1();
+    }
     // half of the histories are free of Symbol payloads (the known interner-order dependence cannot show in them)
     let with_symbols = rng.chance(1, 2);
     let mut ops_l = vec!["lam", "app", "var", "two", "cst", "neg", "flag", "idx", "#num"];
@@ -307,6 +333,8 @@ pub fn run_case(rng: &mut Rng, case_seed: u64, processes: usize, argv_extra: &[S
 }
 
 pub fn run(args: &Args, rep: &mut Rep) {
+    let directed = args.param_u("directed_kf1", 0) == 1;
+    DIRECTED_KF1.with(|d| d.set(directed));
     if args.param_u("transcript", 0) == 1 {
         // child mode: print the transcript of one case (dump output goes to stdout in place)
         let cs = args.one.unwrap_or(0);
@@ -319,5 +347,9 @@ pub fn run(args: &Args, rep: &mut Rep) {
         std::process::exit(0);
     }
     let processes = args.param_u("processes", 3) as usize;
-    drive(args, rep, move |rng, cs| run_case(rng, cs, processes, &[]));
+    let extra: Vec<String> = if directed { vec!["directed_kf1=1".to_string()] } else { vec![] };
+    drive(args, rep, move |rng, cs| {
+        DIRECTED_KF1.with(|d| d.set(directed));
+        run_case(rng, cs, processes, &extra)
+    });
 }
